@@ -80,3 +80,11 @@ except Exception as e:  # noqa: BLE001
 for nm, c in (("lit == col", left), ("col == lit", right)):
     z = pl.when(c.count() == 0).then(pl.lit(None).cast(pl.Boolean)).otherwise(c.all()).over("n2")
     print("D16e:", nm, "under .over():", base.with_columns(z=z).get_column("z").to_list(), "(null expected: the comparison is null in every row)")
+
+
+# D23: common subexpression elimination conflates literal series that are empty / all null but of different dtypes
+df = pl.DataFrame({"k": [1, 2]})
+zi = pl.Series("z", [None, None], dtype=pl.Int64)
+zf = pl.Series("w", [None, None], dtype=pl.Float64)
+lf = df.lazy().with_columns((pl.lit(zi) + pl.lit(zi)).alias("a"), (pl.lit(zf) + pl.lit(zf)).alias("b"))
+print("D23: optimized:", dict(lf.collect().schema), "unoptimized:", dict(lf.collect(optimizations=pl.QueryOptFlags.none()).schema))
